@@ -95,7 +95,7 @@ func init() {
 	})
 	p.Strata = append(p.Strata, mon.Stratum{
 		Name: "random-deeper",
-		N:    qt(40000, 1500000),
+		N:    qt(40000, 12000000),
 		Run: func(c *mon.Ctx, i int) {
 			prof := []gen.Profile{gen.PObjects, gen.PNulls.With(func(p *gen.Profile) { p.PArr = 0.25 }), gen.PDeep.With(func(p *gen.Profile) { p.PArr = 0.2 }), gen.PHostile.With(func(p *gen.Profile) { p.PArr = 0.2 })}[i%4]
 			t := gen.Doc(c.R, prof)
